@@ -377,6 +377,20 @@ func (c *SMTCtx) AssertAlways(t Term, note string) {
 	c.inQuant = saved
 }
 
+// Atom returns a constant equal to t (a plain symbol is returned as is): terms used inside quantifier
+// patterns must not contain ite/or/and.
+func (c *SMTCtx) Atom(prefix string, t Term) Term {
+	if !strings.HasPrefix(t.S, "(") {
+		return t
+	}
+	saved := c.inQuant
+	c.inQuant = 0
+	n := c.Fresh(prefix, t.Sort)
+	c.Assert(Eq(n, t), "def")
+	c.inQuant = saved
+	return n
+}
+
 // Named introduces a definitional constant for t (keeps terms small).
 func (c *SMTCtx) Named(prefix string, t Term) Term {
 	if len(t.S) < 40 || c.inQuant > 0 {
